@@ -75,6 +75,9 @@ THEOREMS = [
     "AiuVerif.C01.glb_names_documented",
     "AiuVerif.C01.pfilter_spec",
     "AiuVerif.C01.pfilter_sublist",
+    "AiuVerif.C01.recombine_only_tid",
+    "AiuVerif.C01.recombine_device_untouched",
+    "AiuVerif.C01.recombine_pass",
 ]
 RULE = ("random rich scenarios (gen/rich.py: 1..4 ranks, chain all-reduce groups, kernels, host slices as X and B/E, ties, "
         "nesting, staggered partial overlaps up to the 5-extra-lane budget, zero/negative durations, 1/16 us device slices, "
@@ -522,6 +525,32 @@ def small_stages_correspondence(ctx):
                 nm.append(rng.choice([a, a + " 17", "pre " + a, a[:-1], a + b_, a[1:], "kernel_" + str(rng.randint(0, 9))]) or "x")
             lines.append("c01 dropg " + ";".join(enc(n) for n in nm))
             pend.append(("dropg", nm))
+    rc_ = reg.get("recombine_cpu_events")
+    if rc_ is not None:
+        cpu_tid = rc_["kwargs"].get("cpu_stream_tid", 1000)
+        for _ in range(ctx.n(60, 600)):
+            evs = []
+            for i in range(rng.randint(1, 12)):
+                e = {"ph": rng.choice(["X"] * 6 + ["C", "M", "i"]), "pid": rng.randint(0, 2), "ts": float(i), "dur": 1.0,
+                     "name": rng.choice(["host op", "AIU Roundtrip", "pre AIU Roundtrip 3", "k Cmpt Exec", "Aiu roundtrip"]),
+                     "args": {"uid": i}}
+                if rng.random() < 0.9:
+                    e["tid"] = rng.choice([5, 77, 1000, 1100])
+                if rng.random() < 0.4:
+                    e["args"]["TS1"] = "100"
+                r = rng.random()
+                if r < 0.8:
+                    e["args"]["jobhash"] = jf
+                elif r < 0.9:
+                    e["args"]["jobhash"] = jt
+                elif r < 0.95:
+                    e["args"]["jobhash"] = junk
+                evs.append(e)
+            toks = [",".join([str(e["args"]["uid"]), enc(e["ph"]), "1" if e["args"].get("jobhash") == jf else "0",
+                              "1" if "TS1" in e["args"] else "0", enc(e["name"]), str(e["pid"]), str(e["tid"]) if "tid" in e else "-"])
+                    for e in evs]
+            lines.append(f"c01 recomb {cpu_tid} " + ";".join(toks))
+            pend.append(("recomb", evs))
     pf = reg.get("processing_filter")
     if pf is not None:
         for _ in range(ctx.n(40, 400)):
@@ -586,6 +615,16 @@ def small_stages_correspondence(ctx):
                             ctx.compare("map_tid_to_range changes nothing but the tid", {"events": evs}, a, b_)
                 ctx.compare("Small.mapAll vs real map_tid_to_range + TIDMappingContext: new tids | tid_original | tid_remap",
                             {"events": evs, "ctx": [len(cobj.tid_remap), cobj.remap_step]}, o, real)
+            elif item[0] == "recomb":
+                evs = item[1]
+                with _cl.redirect_stdout(_io.StringIO()):
+                    got, err = stage.run_stages([(rc_["callback"], rc_["context"], rc_["kwargs"])], evs)
+                real = ",".join(f"{e['args']['uid']}:{e['tid'] if 'tid' in e else '-'}" for e in got) if err is None else "raises " + err
+                ctx.count("recombine_events", len(evs))
+                for a, b_ in zip(evs, got):
+                    if {k: v for k, v in a.items() if k != "tid"} != {k: v for k, v in b_.items() if k != "tid"}:
+                        ctx.compare("recombine_cpu_events changes nothing but the tid", {"events": evs}, a, b_)
+                ctx.compare("Small.recombine vs real recombine_cpu_events (registered cpu_stream_tid): tid per event", {"events": evs}, o, real)
             elif item[0] == "dropg":
                 nm = item[1]
                 evs = [{"ph": "X", "pid": 0, "tid": 0, "ts": float(i), "dur": 1.0, "name": n, "args": {"uid": i}} for i, n in enumerate(nm)]
